@@ -53,6 +53,10 @@ func (e *env) extras(pos string) map[string]interface{} {
 // buildItem returns the value of the `servers:` / `channels:` key for a server/channel input.
 func (e *env) buildList(in input, a string) interface{} {
 	m := e.extras(in.Pos)
+	if in.NoCert {
+		delete(m, "certificateFile")
+		delete(m, "privateKeyFile")
+	}
 	if in.Pos == posChannel && in.Name != "" {
 		m["name"] = in.Name
 	}
@@ -728,6 +732,12 @@ func (e *env) judgeTransport(d caseDesc, form string, nat *ref, a string, o obs,
 			// a password-protected UDP endpoint speaks AES-encrypted KCP: no plaintext probe can (or should)
 			// identify it; that it came up on the datagram socket and answers no plaintext probe is the expected outcome
 			e.rec.Seen("udp_password_endpoints_not_answering_plaintext_probes", in.Pos+":"+d.Form)
+			return
+		}
+		if in.NoCert && nat.TLS {
+			// a TLS endpoint without a certificate can complete no handshake at all: it came up, but it answers neither the
+			// plaintext nor the TLS probes, so nothing is carried unencrypted
+			e.rec.Seen("tls_endpoints_without_certificate_that_came_up_and_serve_nobody", in.Pos+":"+readScheme(in.Addr))
 			return
 		}
 		e.rec.Inconclusive("endpoint came up but no probe identified it: "+o.Detail, d)
